@@ -105,6 +105,13 @@ CLAIMED.update({
    note="Expedited values read into a smaller type (prefix semantics) are generated but not judged. Download is expedited only (the API refuses more than 4 bytes)."),
 })
 
+CLAIMED.update({
+ "C16": dict(engine="simnet", category="fault_enumeration", design_ref="§5 C16",
+   technique="property-based fault injection: the simulated device's reply mailbox is scripted with generated replies (field-mutated valid replies of every kind, truncations, random bytes, bursts, endless repetition) for every SDO / SDO-information entry point, in both arithmetic profiles; oracle = the call returns a value or an error: no panic (catch_unwind + panic site attribution), no non-termination (frame budget derived from the largest legitimate transfer)",
+   text="Mailbox sizes 6..1024; entry points sdo_read (u8/u32/u64/[u8;N]/String<N>/Vec<u8,N>), sdo_write, sdo_read_array, sdo_write_array, sdo_info_object_description_list, sdo_info_object_quantities; scripts of 0..5 reply bursts with every header field either plausible or generated over its range. Both the release profile and a profile with overflow checks and debug assertions are run.",
+   note="'Never reads outside the response' is covered through Rust's bounds checks (an out-of-range slice is a panic, reported here) plus the view-extent oracle of C01; no separate canary is placed behind the datagram. Known finding: the two SDO information entry points do not end under endless non-final replies."),
+})
+
 NOT_YET = {}
 
 ALL = [f"C{i:02d}" for i in range(1,21)]
@@ -140,7 +147,7 @@ def main():
         {"name":"pdusim","path":"harness/vlib","serves_properties":[p for p in CLAIMED if CLAIMED[p]["engine"]=="pdusim"],"kind_free_text":"PDU-loop harness: real frame builder / TX / RX driven op by op under a virtual clock, reference frame encoder, slot snapshots through verif-hooks"},
         {"name":"sii","path":"harness/vlib/src/sii.rs","serves_properties":["C12","C13","C14"],"kind_free_text":"independent SII EEPROM encoder + in-memory EepromDataProvider (4/8 byte chunks, read budget), driven through the verif-hooks SiiQueries facade"},
         {"name":"wiregen","path":"harness/vlib/src/wiregen.rs","serves_properties":["C19"],"kind_free_text":"derive-program generator, Rust source emitter, request/response executor, bit-level reference packer"},
-        {"name":"simnet","path":"harness/vlib/src/simnet.rs","serves_properties":["C07","C08","C09","C10","C11","C15"],"kind_free_text":"simulated EtherCAT segment: frame walk over ESC register/SII/SM/FMMU/AL/mailbox(CoE)/DC models, deterministic executor under the virtual clock, coherent device generator"},
+        {"name":"simnet","path":"harness/vlib/src/simnet.rs","serves_properties":["C07","C08","C09","C10","C11","C15","C16"],"kind_free_text":"simulated EtherCAT segment: frame walk over ESC register/SII/SM/FMMU/AL/mailbox(CoE)/DC models, deterministic executor under the virtual clock, coherent device generator"},
         {"name":"a2","path":"harness/vlib/src/a2.rs","serves_properties":["C01","C02","C06"],"kind_free_text":"yield-level scheduler: parties as ucontext coroutines on one thread, baton handed over at every verif-hooks point, schedules generated (random/PCT) or enumerated (pre-emption bounded), ownership monitor"},
       ],
       "checks":checks,
